@@ -467,7 +467,9 @@ class SecopClient(ProxyClient):
                     noactivity += 1
                     if noactivity % 5 == 0:
                         # send ping to check if the connection is still alive
-                        self.queue_request(HEARTBEATREQUEST, str(noactivity))
+                        # not with queue_request: this would wait for the lock of a thread being in
+                        # connect(), which waits for a reply to be read by this thread
+                        self.txq.put([(HEARTBEATREQUEST, str(noactivity), None), Event(), None], timeout=3)
                     continue
                 self.log.debug('RX: %r', reply)
                 noactivity = 0
